@@ -1,4 +1,20 @@
 //! further replay entry points (added as obligations grow)
-pub fn run(key: &str, _a: &[String]) -> String {
-    panic!("unknown key {key}")
+use ckb_chain_spec::consensus::ConsensusBuilder;
+use ckb_types::core::Capacity;
+
+fn u(s: &str) -> u64 {
+    s.parse::<u64>().unwrap_or_else(|_| panic!("bad u64 {s}"))
+}
+
+pub fn run(key: &str, a: &[String]) -> String {
+    match key {
+        "consensus_primary_epoch_reward" => {
+            let c = ConsensusBuilder::default()
+                .initial_primary_epoch_reward(Capacity::shannons(u(&a[0])))
+                .primary_epoch_reward_halving_interval(u(&a[1]))
+                .build();
+            format!("{}", c.primary_epoch_reward(u(&a[2])).as_u64())
+        }
+        _ => panic!("unknown key {key}"),
+    }
 }
